@@ -2,6 +2,7 @@ package props
 
 import (
 	"fmt"
+	"os"
 	"strings"
 	"testing"
 	"unsafe"
@@ -38,11 +39,12 @@ type fsParty struct {
 }
 
 type c08run struct {
-	s      *Sess
-	o      *sim.Outcome
-	p      [2]*fsParty
-	v3     bool
-	events map[string]bool
+	finalFailed *finalFail
+	s           *Sess
+	o           *sim.Outcome
+	p           [2]*fsParty
+	v3          bool
+	events      map[string]bool
 }
 
 func akeTypesIn(out [][]byte) (commit, dhkey bool) {
@@ -88,6 +90,9 @@ func (r *c08run) onCall(c *sim.Call) {
 		fp.secrets = append(fp.secrets, rec)
 	}
 	commit, dhkey := akeTypesIn(c.Out)
+	if os.Getenv("VERIF_DEBUG") != "" {
+		fmt.Printf("DBG %s.%s in=%d err=%v out=%d enc %v->%v draws=%d sec=%v\n", party.Name, c.Name, len(c.In), c.Err, len(c.Out), c.EncBef, c.EncAft, len(party.R.Draws), c.NewSec(party))
+	}
 	completed := false
 	for _, e := range c.NewSec(party) {
 		if e == otr3.GoneSecure || e == otr3.StillSecure {
@@ -107,10 +112,37 @@ func (r *c08run) onCall(c *sim.Call) {
 			}
 		}
 	}
+	if c.Name == "Receive" && !completed && fp.inAKE {
+		// the peer's final key-exchange message (observer-validated) was processed: whatever the outcome, this
+		// exchange is over (the state machine is back to "none"), so its ephemeral secrets have to go
+		for i := len(r.s.Units) - 1; i >= 0 && i > len(r.s.Units)-12; i-- {
+			u := r.s.Units[i]
+			if u.From != who && u.Obs != nil && u.Obs.Verified && (u.Obs.Reveal != nil || u.Obs.Sig != nil) && len(u.Wires) > 0 && string(u.Wires[len(u.Wires)-1].Data) == string(c.In) {
+				if c.Err != nil {
+					// the exchange may or may not be over (the library keeps waiting when it could not build its
+					// reply); the fault runner settles the question by presenting the message once more
+					r.events["final-ake-message-failed"] = true
+					r.finalFailed = &finalFail{who: who, unit: u}
+				}
+				break
+			}
+		}
+	}
 	if c.Name == "End" {
 		fp.ended, fp.chain = true, nil
 		fp.inAKE, fp.akeExp, fp.akeRs = false, nil, nil
 		r.events["end-or-disconnect"] = true
+	}
+	if c.Err != nil && len(c.Out) == 0 && !completed && !c.EncBef && !c.EncAft && (len(newDH) > 0 || len(newR) > 0) {
+		// the call failed before anything derived from these draws left the conversation (a handshake message that
+		// could not be built, a malformed D-H Commit answered too eagerly): they never protected anything, so they are
+		// not "retired" secrets in the sense of the property; the library keeps them in its idle handshake context
+		// until the next exchange starts (pinned by Test_receiveDHCommit_AtAuthStateNoneStoresGyAndY)
+		r.events["unused-draws-after-error"] = true
+		for _, rec := range append(newDH, newR...) {
+			rec.class = "unused"
+		}
+		newDH, newR = nil, nil
 	}
 	if (commit || dhkey) && len(newDH) > 0 && !completed {
 		// a new exchange starts: whatever was in progress is abandoned
@@ -172,6 +204,9 @@ func (r *c08run) check(who int, after string) {
 	}
 	reachableDH := 0
 	for _, rec := range fp.secrets {
+		if rec.class == "unused" {
+			continue
+		}
 		if rec.class == "r" {
 			// r is disclosed in the Reveal Signature message, so copies inside message buffers are not secrets;
 			// what is judged is the place it was drawn into: once the exchange is over it must have been zeroed
@@ -277,7 +312,7 @@ func runC08(sc *LifeScript) *sim.Outcome {
 	return o
 }
 
-func init() { reg("C08secrets", runC08) }
+func init() { reg("C08secrets", runC08); reg("C08faults", runC08Fault) }
 
 func TestProp_C08_Secrets(t *testing.T) {
 	defer sim.MarkCompleted("C08secrets", false)
@@ -295,4 +330,104 @@ func TestProp_C08_Secrets(t *testing.T) {
 		}
 		sim.Judge(rt, "C08secrets", sc)
 	})
+}
+
+// FSFaultCase: a handshake and some traffic with the randomness source of one party failing from read K on
+// (healed again after the handshake), judged by the same forward-secrecy invariants.
+type finalFail struct {
+	who  int
+	unit *Unit
+}
+
+type FSFaultCase struct {
+	V    int `json:"v"`
+	Who  int `json:"who"`
+	K    int `json:"k"`
+	Mode int `json:"mode"`
+}
+
+func runC08Fault(c *FSFaultCase) *sim.Outcome {
+	o := &sim.Outcome{}
+	s := newSess(&SessScript{Cfg: SessCfg{V: c.V, SeedA: 2500, SeedB: 2601, KeyA: 0, KeyB: 3}}, o)
+	r := &c08run{s: s, o: o, v3: c.V == 3, events: map[string]bool{}}
+	for i := range r.p {
+		r.p[i] = &fsParty{queued: map[string]bool{}}
+	}
+	prev := s.W.OnCall
+	s.W.OnCall = func(cc *sim.Call) { prev(cc); r.onCall(cc) }
+	w := s.W
+	w.P[c.Who].R.FailAt, w.P[c.Who].R.FailMode = c.K, c.Mode%2
+	if c.Mode >= 2 {
+		w.P[c.Who].R.FailFor = 1
+	}
+	w.Query(0)
+	for n := 0; n < 2000 && w.Pending() > 0 && o.Violation == ""; n++ {
+		d := n % 2
+		if len(w.Q[d]) == 0 {
+			d = 1 - d
+		}
+		s.DeliverQ(d, 0)
+		if ff := r.finalFailed; ff != nil {
+			// the peer's validated last handshake message was refused with an error. Present it once more with a
+			// working randomness source: a conversation still in that exchange completes it now; one that ignores
+			// it has left the exchange, and then nothing of the exchange may remain
+			r.finalFailed = nil
+			p := w.P[ff.who]
+			p.R.Heal()
+			nSec := len(p.Sec)
+			var last *sim.Call
+			for _, wr := range ff.unit.Wires {
+				cp := *wr
+				cp.Replayed = true
+				last, _ = s.DeliverWire(ff.who, &cp)
+			}
+			if last != nil && last.Err == nil && len(last.Out) == 0 && len(p.Sec) == nSec && !last.EncAft {
+				o.Class("exchange-left-after-fault")
+				fp := r.p[ff.who]
+				fp.inAKE, fp.akeExp, fp.akeRs = false, nil, nil
+				r.check(ff.who, p.Name+".Receive (key exchange left after a randomness failure)")
+			} else {
+				o.Class("exchange-resumed-after-fault")
+			}
+		}
+	}
+	failed := w.P[c.Who].R.Failed > 0
+	w.P[c.Who].R.Heal()
+	if o.Violation != "" {
+		return o
+	}
+	// the parties go on: either in the session they have or with a new attempt
+	s.Exec(SOp{K: "pp", W: 0, I: 1, L: 4})
+	w.AgeClock(0, 3*60e9)
+	w.AgeClock(1, 3*60e9)
+	w.Query(1)
+	s.Exec(SOp{K: "flush"})
+	s.Exec(SOp{K: "pp", W: 1, I: 0, L: 4})
+	for k := range r.events {
+		o.Class(k)
+	}
+	if failed {
+		o.Class("fault-reached")
+	}
+	o.NonTrivial = failed
+	return o
+}
+
+func TestProp_C08_Faults(t *testing.T) {
+	si, sn := sim.Shard()
+	idx := 0
+	for _, v := range []int{3, 2} {
+		for who := 0; who < 2; who++ {
+			for k := 0; k <= 14; k++ {
+				for mode := 0; mode < 4; mode++ {
+					idx++
+					if idx%sn != si {
+						continue
+					}
+					sim.Judge(t, "C08faults", &FSFaultCase{V: v, Who: who, K: k, Mode: mode})
+				}
+			}
+		}
+	}
+	sim.MarkCompleted("C08faults", true)
 }
